@@ -146,15 +146,30 @@ Theorem C42_block_timeout_unseen_wake_refutes :
     b_pc s = BDone BTimeout true at_ /\ b_done s = Some t /\ t < 0 + 10.
 Proof. exact late_check_window_exists. Qed.
 
-(* Liveness defect exhibited by the faithful model (recorded finding
-   C42-block-timeout-self-wake-deadlock; outside the C42 statement, which constrains what
-   is RETURNED): the waker does a blocking send into a one-slot channel, so a wake issued
-   from inside poll while a token is buffered blocks the polling thread for good - whatever
-   happens afterwards, block_timeout never returns and its duration is not honoured. *)
-Theorem C42_block_timeout_can_deadlock :
-  exists ops, b_pc (brun ops (binit 0 10 7)) = BStuck /\
-    forall more, b_pc (brun more (brun ops (binit 0 10 7))) = BStuck.
-Proof. exact block_timeout_can_deadlock. Qed.
+(* After fix 7de0553 (the waker does try_send; former finding
+   C42-block-timeout-self-wake-deadlock): a wake issued from inside poll - also with a
+   token already buffered - never blocks the polling thread: its place in the loop, the
+   clock and the future are unchanged and a token is buffered afterwards; a wake from
+   any other thread does not change the blocked thread's place either.  The theorems
+   above (Ok is the output, Timeout only late) quantify over ALL op lists, in-poll
+   wakes (BSelfWake) included. *)
+Theorem C42_self_wake_never_blocks : forall s,
+  b_pc (bstep s BSelfWake) = b_pc s /\
+  (b_pc s = BPolling -> b_tok (bstep s BSelfWake) = true) /\
+  b_clock (bstep s BSelfWake) = b_clock s /\ b_done (bstep s BSelfWake) = b_done s /\
+  b_pc (bstep s BSpurious) = b_pc s.
+Proof. exact self_wake_never_blocks. Qed.
+
+(* the old hanging input (two wakes inside one poll): the poll proceeds - Pending leads to
+   the clock check with a token buffered, Ready to Ok(output) *)
+Theorem C42_self_wake_then_poll_proceeds : forall s,
+  b_pc s = BPolling ->
+  let s' := brun [BSelfWake; BSelfWake; BPoll] s in
+  match b_done s with
+  | None => b_pc s' = BChecking /\ b_tok s' = true
+  | Some _ => exists at_, b_pc s' = BDone (BOk (b_val s)) false at_
+  end.
+Proof. exact self_wake_then_poll_proceeds. Qed.
 
 (* a completed future whose wake token is in the channel is returned by the thread's
    own next two steps, whatever the clock *)
@@ -220,7 +235,8 @@ Print Assumptions C42_block_on_returns_output.
 Print Assumptions C42_block_timeout_ok_is_output.
 Print Assumptions C42_block_timeout_only_late.
 Print Assumptions C42_block_timeout_unseen_wake_refutes.
-Print Assumptions C42_block_timeout_can_deadlock.
+Print Assumptions C42_self_wake_never_blocks.
+Print Assumptions C42_self_wake_then_poll_proceeds.
 Print Assumptions C42_block_timeout_completes.
 Print Assumptions C42_join_handshake.
 Print Assumptions C42_replay_steps_are_model_steps.
